@@ -186,10 +186,14 @@ Proof.
   intros W. apply andb_prop in W. destruct W as [W1 W2].
   destruct f as [p|d p|d t p]; cbn [holds]; unfold has_g, has_d, has_t.
   - cbn. apply pmem_punion.
-  - rewrite union_dbs_get by exact W1. unfold db_of at 3. destruct (aget d (dbs b)) as [v|].
+  - rewrite union_dbs_get by exact W1.
+    replace (db_of b d) with (match aget d (dbs b) with Some v => v | None => empty_d end) by reflexivity.
+    destruct (aget d (dbs b)) as [v|].
     + cbn [union_d d_privs]. apply pmem_punion.
     + cbn. rewrite orb_false_r. reflexivity.
-  - rewrite union_dbs_get by exact W1. unfold db_of at 3. destruct (aget d (dbs b)) as [v|] eqn:A.
+  - rewrite union_dbs_get by exact W1.
+    replace (db_of b d) with (match aget d (dbs b) with Some v => v | None => empty_d end) by reflexivity.
+    destruct (aget d (dbs b)) as [v|] eqn:A.
     + assert (Wv : ukeys (d_tbls v) = true) by exact (allv_aget _ _ _ _ W2 A).
       unfold tbl_of at 1. cbn [union_d d_tbls]. rewrite (union_tbls_get _ _ t Wv).
       unfold tbl_of. destruct (aget t (d_tbls v)) as [s|].
